@@ -68,11 +68,15 @@ def send_line(m):
         m["type"], m["code"], m["token"].hex(), opts, m["payload"].hex() or "-")
 
 
-def setup(exe, r, c, b12=False, rsp=None):
+def setup(exe, r, c, b12=False, rsp=None, block_mode=None):
     w = world.World(exe, seed=r.getrandbits(30))
     sim = world.Sim(w, latency=1)
-    sim.add_node(0)
-    sim.add_node(1)
+    if block_mode is None:
+        sim.add_node(0)
+        sim.add_node(1)
+    else:
+        sim.add_node(0, block_mode=block_mode)     # coap_cancel_observe() needs USE_LIBCOAP
+        sim.add_node(1, block_mode=block_mode)
     sim.cmd("oscore_server 1 %s" % conf_text(c["secret"], c["salt"], c["server_id"],
                                              c["client_id"], c["idctx"], b12))
     sim.cmd("ep 1 udp %s" % SERVER)
@@ -263,6 +267,93 @@ def tamper_variants(D):
     return out
 
 
+def observe_history(exe, r, c, run, witness, stats):
+    """An observation under OSCORE: registration, notifications, re-registration and
+    cancellation with the same token.  Every response must reach the client's handler and
+    must open with the reference using the Partial IV of a request that carried that token
+    (RFC 8613 4.1.3.5: notifications are bound to the registration, any other response to
+    its own request)."""
+    if c["start"] > 2 ** 40 - 64:
+        # the history sends more requests than there are sequence numbers left (the sender
+        # rightly stops at 2^40 - 1)
+        c = dict(c, start=2 ** 40 - 200)
+    w, sim = setup(exe, r, c, False, None, block_mode=1)
+    try:
+        sim.cmd("res 1 %s body=counter obs=1" % b"o".hex())
+        tok = bytes([0x70 + r.randrange(8), r.getrandbits(8)])
+        steps = ["register"]
+        for _ in range(r.choice([1, 2, 4])):
+            steps.append(r.choice(["notify", "notify", "reregister", "cancel-then-register"]))
+        steps.append("notify")
+        steps.append("cancel")
+        witness["observe_steps"] = steps
+        expect = 0
+        phase_of_count = []
+        for st in steps:
+            if st in ("register", "reregister"):
+                sim.cmd("send 0 0 type=0 code=1 token=%s opts=6=,11=%s" % (tok.hex(), b"o".hex()))
+                expect += 1
+            elif st == "notify":
+                sim.cmd("notify 1 o")
+                expect += 1
+            elif st == "cancel":
+                sim.cmd("cancelobs 0 0 %s 0" % tok.hex())
+                expect += 1
+            else:
+                sim.cmd("cancelobs 0 0 %s 0" % tok.hex())
+                sim.run(until=sim.elapsed() + 3000, quiesce=False)
+                phase_of_count.append(st + "/cancel")
+                sim.cmd("send 0 0 type=0 code=1 token=%s opts=6=,11=%s" % (tok.hex(), b"o".hex()))
+                expect += 2
+            phase_of_count.append(st)
+            sim.run(until=sim.elapsed() + 3000, quiesce=False)
+        got = [e for e in sim.log if e["e"] == "rsp" and e.get("n") == 0 and e["tok"] == tok.hex()]
+        stats["observe_responses"] = stats.get("observe_responses", 0) + len(got)
+        if len(got) < expect:
+            missing = phase_of_count[len(got)] if len(got) < len(phase_of_count) else "?"
+            run.violation("oscore-observe-response-not-delivered/%s" % missing.split("/")[0],
+                          witness, "the client's handler saw %d of %d responses for token %s; "
+                          "the one after step %r is missing" % (len(got), expect, tok.hex(),
+                                                                missing))
+        # reference: every protected response opens with RFC 8613 inputs
+        cli = ref_ctx(c, True)
+        req_pivs = []
+        for e in sim.log:
+            if e["e"] != "wire":
+                continue
+            try:
+                m = cw.decode(bytes.fromhex(e["b"]), "udp")
+                ov = [v for n, v in m["options"] if n == 9]
+                if not ov or m["token"] != tok:
+                    continue
+                oo = O.decode_oscore_option(ov[0], strict=False)
+            except Exception:
+                continue
+            if e["from"].startswith("10.0.0.1"):
+                if oo["piv"] and oo["piv"] not in req_pivs:
+                    req_pivs.append(oo["piv"])
+                continue
+            stats["observe_reference_opened"] = stats.get("observe_reference_opened", 0) + 1
+            opened = False
+            for piv in reversed(req_pivs):
+                try:
+                    O.unprotect_response(cli, canon(m), c["client_id"], piv)
+                    opened = True
+                    break
+                except Exception:
+                    continue
+            if not opened:
+                kind = "with-own-piv" if oo["piv"] else "without-piv"
+                run.violation("oscore-observe-response-does-not-open/%s" % kind, dict(
+                    witness, datagram=e["b"], request_pivs=[p.hex() for p in req_pivs]),
+                    "protected response %s does not open with the reference for any request "
+                    "Partial IV that carried its token" % e["b"])
+        world.teardown_check(run, "C14/observe", w, witness)
+    finally:
+        if not w.closed:
+            w.close(kill=True)
+
+
 def work(job):
     items, exe, tamper_every = job
     run = common.Run("C14", "quick", "exploration")
@@ -290,6 +381,8 @@ def work(job):
                       bool(c["salt"]), c["start"].bit_length() // 8, req["code"],
                       tuple(sorted(set(nn for nn, _ in req["options"]))), len(req["payload"]) > 0))
             world.teardown_check(run, "C14", w, witness)
+            if it % 3 == 0:
+                observe_history(exe, r, c, run, dict(witness), stats)
             if D is not None and it % tamper_every == 0:
                 # tamper sweep against a fresh server: all variants first, then the genuine one
                 w2, sim2 = setup(exe, r, c, False, rsp)
